@@ -10,7 +10,7 @@ PROP = "C01"
 MODULE = "OpnVerif.Props.C01"
 GRAN = "1:-10"
 FOLLOW = ["total", "tell", "tracks", "songs", "meta", "tickall 3000 " + GRAN, "atend", "seek 1:-1", "tickall 500 " + GRAN, "selectsong -1", "selectsong 1", "selectsong 100",
-          "rewind", "playlog 20000 1024", "seek 5:0", "loop 1", "tickall 5 " + GRAN, "loop 0", "meta", "total"]
+          "rewind", "playlog 20000 1024", "seek 5:0", "rewind", "loop 1", "loopcount 2", "tickall 400 " + GRAN, "loop 0", "meta", "total"]
 
 
 def images(ctx):
